@@ -424,7 +424,7 @@ def genval(r, rng, sc, name=None):
     if k in ("Hex", "HexDump", "ByteSwapped", "NullStripped", "Bitwise", "Bytewise"):
         return genval(a[0], rng, sc)
     if k == "Renamed":
-        return genval(a[1], rng, sc)
+        return genval(a[1], rng, sc, name)
     if k == "OneOf":
         return rng.choice(a[1])
     if k in ("Struct", "LazyStruct", "BitStruct", "AlignedStruct"):
@@ -432,6 +432,8 @@ def genval(r, rng, sc, name=None):
         s2 = M.new_scope(sc)
         out = {}
         for nm, m in ms:
+            if nm is None and m[0] == "Renamed" and m[1]:
+                nm = m[1]
             v = genval(m, rng, s2, nm)
             if nm:
                 if not (M.is_buildnone(m) and v is None):
@@ -475,7 +477,7 @@ def genval(r, rng, sc, name=None):
         return genval(a[2], rng, sc) if len(a) > 2 and a[2] is not None else None
     if k == "Optional":
         return genval(a[0], rng, sc) if rng.random() < 0.6 else None
-    if k in ("Prefixed", "FixedSized", "Padded", "Aligned", "ProcessXor"):
+    if k in ("Prefixed", "FixedSized", "Padded", "Aligned", "ProcessXor", "Pointer"):
         return genval(a[1], rng, sc)
     if k == "NullTerminated":
         return genval(a[0], rng, sc)
